@@ -2307,13 +2307,15 @@ func (mgr *Manager) newPcapOverIPEndpoint(ctx context.Context, address string) *
 					log.Printf("Can't get file descriptor of PCAP-over-IP endpoint %q: %v\n", endpoint.Address, err)
 					return
 				}
+				// closed by this goroutine only, after the pcap handle is done with
+				// it; shutting down the socket below is what unblocks a pending read
+				defer file.Close()
 				ctx, innerCancel := context.WithCancel(ctx)
 				go func() {
 					<-ctx.Done()
 					_ = conn.CloseRead()
 					_ = conn.CloseWrite()
 					conn.Close()
-					file.Close()
 				}()
 				defer innerCancel()
 				handle, err := pcap.OpenOfflineFile(file)
